@@ -63,6 +63,9 @@ def run(tier: str, seed: int, rep: Report, model: Model) -> dict:
     worker = ImplWorker("harness.ctxrun")
     try:
         for case, im, mo, raw in ctxrun.run_cases(cases, model, worker):
+            if im.get("detail", {}).get("__skipped__"):
+                rep.count("not_run_after_timeouts")
+                continue
             if case.get("length_mismatch"):
                 b = ctxrun.brief(case)
                 rep.case(str(b), {**b, "impl": im.get("kind") or im.get("exn") or im["v"]}, nontrivial=True)
